@@ -351,7 +351,9 @@ func toValue(value interface{}) Value {
 		case reflect.Uint64:
 			return Value{kind: valueNumber, value: value.Uint()}
 		case reflect.Float32:
-			return Value{kind: valueNumber, value: float32(value.Float())}
+			// widen like the plain float32 case above: the runtime has no float32 numbers
+			// (Value.float64 panics on one, Value.bool treats a float32 NaN as true)
+			return Value{kind: valueNumber, value: value.Float()}
 		case reflect.Float64:
 			return Value{kind: valueNumber, value: value.Float()}
 		case reflect.String:
